@@ -4,6 +4,7 @@ CONSTANTS MaxEntries = 5
  Gen = FALSE
 INVARIANT OverIffKraft
 INVARIANT CarryChainAgrees
+INVARIANT FastAgrees
 INVARIANT PrefixFree
 INVARIANT RoundTrip
 INVARIANT FirstIsZero
